@@ -198,6 +198,50 @@ INVALID = [
 ]
 
 
+def nested_statements():
+    r, k, v = col('r'), col('k'), col('v')
+    gb = A.GroupBy([col('r'), col('k')], None)
+    targets = [(r, None), (k, None), (F('sum', v), 's'), (F('count', A.Asterisk()), 'n')]
+    inner = select([(r, None), (k, None), (v, None)], from_='t')
+    member = A.In(r, select([(r, None)], from_='t'))
+    out = []
+    for pv in ([col('r'), col('k')], [2, 1]):
+        base = select(targets, from_='t', group_by=gb, pivot_by=A.PivotBy(list(pv)))
+        out.append((base, [
+            ('from-subquery', select(targets, from_=inner, group_by=gb, pivot_by=A.PivotBy(list(pv)))),
+            ('where-in-subquery', select(targets, from_='t', where=member, group_by=gb, pivot_by=A.PivotBy(list(pv)))),
+            ('both', select(targets, from_=inner, where=member, group_by=gb, pivot_by=A.PivotBy(list(pv)))),
+            ('from-nested-subquery', select(targets, from_=select(A.Asterisk(), from_=inner), group_by=gb, pivot_by=A.PivotBy(list(pv)))),
+        ]))
+    return out
+
+
+def check_nested(acc, only=None):
+    """A top-level PIVOT BY query may read a sub-query (FROM) or use one (IN): same pivoted result as over the base table."""
+    for rows in ([], [(1, 'x', 1)], [(1, 'x', 1), (2, 'y', 5), (2, 'x', None), (1, 'x', 4)], [(10, 'y', 2), (2, 'y', 2), (0, 'x', 1), (-1, 'x', 1)]):
+        table = HTable(COLS, rows)
+        conn = connect(t=table, postings=table)
+        for base, variants in nested_statements():
+            try:
+                cur = conn.execute(base)
+                want = ([(d.name, d.datatype) for d in cur.description], cur.fetchall())
+            except Exception as e:
+                acc.violation(f'crash:{crash_fingerprint(e)}', f'{show(base)} on {rows!r} raised {type(e).__name__}: {e}', {'kind': 'nested', 'name': 'base'})
+                continue
+            for name, stmt in variants:
+                if only is not None and only != name:
+                    continue
+                acc.count('executions')
+                acc.count('pivot_over_subquery_statements')
+                try:
+                    cur = conn.execute(stmt)
+                    got = ([(d.name, d.datatype) for d in cur.description], cur.fetchall())
+                except Exception as e:
+                    got = f'{type(e).__name__}: {e}'
+                if got != want:
+                    acc.violation(f'pivot-with-subquery:{name}', f'{show(stmt)} on {rows!r}: {got!r}; the same query over the base table gives {want!r}', {'kind': 'nested', 'name': name})
+
+
 def check_invalid(acc, only=None):
     rows = [(1, 'x', 1), (2, 'y', 5)]
     table = HTable(COLS, rows)
@@ -238,6 +282,8 @@ def replay(c):
     acc = Acc()
     if c['kind'] == 'invalid':
         check_invalid(acc, only=c['name'])
+    elif c['kind'] == 'nested':
+        check_nested(acc, only=None if c['name'] == 'base' else c['name'])
     else:
         rows = [tuple(r) for r in unjson(c['rows'])]
         table = HTable(COLS, rows)
@@ -253,6 +299,7 @@ def run(ctx):
     for L, small in plans:
         acc.merge(run_shards(shard_fn, ctx.jobs, L, ctx.seed, small))
     check_invalid(acc)
+    check_nested(acc)
     n = acc.n
     cov = {
         'states': n['executions'], 'transitions': n['cells_compared'], 'traces_validated_against_impl': n['executions'],
